@@ -10,6 +10,12 @@ ArgumentNode = namedtuple("ArgumentNode", ("name", "value", "lineno"))
 ExpressionNode = namedtuple("ExpressionNode", ("value", "lineno"))
 
 
+def count_line_breaks(text):
+    """ Number of line breaks in the text, counting a CR LF pair as one """
+
+    return len(re.findall(r"\r\n|\r|\n", text))
+
+
 class MixedListError(Exception):
     """ Raised by grammar actions (where PLY would swallow a SyntaxError) and reported by parse() as a SyntaxError """
 
@@ -69,11 +75,12 @@ class Lexer(object):
             t.value = t.value[1:-1].encode("latin-1", "backslashreplace").decode("unicode_escape")
         except UnicodeDecodeError:
             raise SyntaxError("Invalid escape sequence in string at position {0}".format(t.lexpos))
+        t.lexer.lineno += count_line_breaks(t.lexer.lexdata[t.lexpos : t.lexer.lexpos])
         return t
 
     @TOKEN(r"[\r\n]+")
     def t_newline(self, t):
-        t.lexer.lineno += len(t.value)
+        t.lexer.lineno += count_line_breaks(t.value)
 
     def t_error(self, t):
         raise SyntaxError("Illegal character {0} at position {1}".format(t.value[0], t.lexpos))
